@@ -436,3 +436,21 @@ def snapshot(root):
             except OSError:
                 snap[p] = ("unreadable", 0, "")
     return snap
+
+
+def run_each(cmd, lines, timeout=10, workers=None):
+    """Runs every line in its OWN process under a watchdog (for operations that may hang or
+    abort): result per line = the output line, or TIMEOUT / ABORT(<signal>)."""
+    import concurrent.futures
+
+    def one(line):
+        try:
+            p = subprocess.run(cmd, input=(line + "\n").encode(), stdout=subprocess.PIPE, stderr=subprocess.DEVNULL, timeout=timeout)
+            out = p.stdout.decode("utf-8", "replace").split("\n")[0]
+            if p.returncode < 0:
+                return "ABORT(%d)" % (-p.returncode)
+            return out if out else "ABORT"
+        except subprocess.TimeoutExpired:
+            return "TIMEOUT"
+    with concurrent.futures.ThreadPoolExecutor(max_workers=workers or NPROC) as ex:
+        return list(ex.map(one, lines))
